@@ -119,6 +119,12 @@ class ModuleAwareEvaluator(Evaluator):
         try:
             v = fold_name(name, mod)
         except Unknown:
+            # not a constant of plain values (a table that maps names to classes of the tree, ...): the single expression it
+            # is bound to is evaluated in place, class names standing for the classes
+            hm = home[0] if home is not None else mod
+            vals = hm.assigns.get(home[1] if home is not None else name, [])
+            if len(vals) == 1 and isinstance(vals[0], ast.expr):
+                return vals[0]
             return None
         try:
             return ast.parse(repr(v), mode="eval").body
